@@ -68,8 +68,11 @@ def to_num(v):
         if v == int(v) and abs(v) < 2 ** 53:
             return Fraction(int(v))
         f = Fraction(v)
-        if f.denominator <= 1 << 20:
-            return f  # exactly representable dyadic fraction: keep exact
+        if f.denominator <= 1 << 20 and f.numerator.bit_length() <= 44:
+            # a short dyadic fraction (0.5, 2147483648.5): what the source says, keep it exact.
+            # 5153960755.2000003 also has a small denominator, but only because its 53 bits are
+            # used up by the magnitude: that is a rounded value
+            return f
         return v
     raise Unspecified('not a number: %r' % (v,))
 
@@ -679,7 +682,10 @@ def ev_call(node, env, reading):
         acc = Fraction(0) if name == 'sum' else Fraction(1)
         for e in elems:
             acc = arith('+' if name == 'sum' else '*', acc, _need_num(e))
-        if len(elems) >= 3 and isinstance(acc, float):
+        if name == 'prod' and isinstance(acc, float) and acc == 0.0 and any(
+                isinstance(e, Fraction) and e == 0 or isinstance(e, float) and e == 0.0 for e in elems):
+            acc = Fraction(0)  # a zero factor makes the product zero in every order
+        elif len(elems) >= 3 and isinstance(acc, float):
             acc = Noisy(acc)  # float addition and multiplication do not associate
         return acc
     if name in ('max', 'min', 'gcd'):
